@@ -712,6 +712,20 @@ func (e *Engine) fieldAddr(p *Path, fr *Frame, base Value, field int, baseT type
 				return &Ptr{Obj: a.Obj, Field: -1, Index: -1}
 			}
 			n := e.newArray(p, arr)
+			if o.Lazy {
+				// an array inside an object of unknown history (a receiver that served earlier calls) holds
+				// unknown values, not zeros: a stale element shows up as a symbolic byte in the output
+				name := joinName(o.Name, core.FieldVarName(st.Field(field)))
+				if n.Kind == OBytes {
+					for i := range n.Segs {
+						n.Segs[i] = Seg{Byte: p.SymInt(fmt.Sprintf("%s[%d]", name, i), 8, false)}
+					}
+				} else {
+					for i := range n.Elems {
+						n.Elems[i] = e.lazyValue(p, fmt.Sprintf("%s[%d]", name, i), arr.Elem())
+					}
+				}
+			}
 			o.Fields[field] = &Agg{Obj: n}
 			return &Ptr{Obj: n, Field: -1, Index: -1}
 		}
